@@ -1,12 +1,20 @@
 use crate::engine::Ctx;
 
 pub mod c01;
+pub mod c02;
+pub mod c03;
 pub mod c04;
 pub mod c05;
+pub mod c06;
 pub mod c08;
 pub mod c08_offer;
 pub mod c09;
+pub mod c10;
+pub mod c11;
+pub mod c11_interop;
 pub mod c12;
+pub mod c14;
+pub mod c14_pc;
 pub mod c15;
 pub mod c15_rtcp;
 pub mod c16;
@@ -17,11 +25,17 @@ pub mod sctp_common;
 
 pub const TABLE: &[(&str, fn(&mut Ctx))] = &[
     ("C01", c01::run),
+    ("C02", c02::run),
+    ("C03", c03::run),
     ("C04", c04::run),
     ("C05", c05::run),
+    ("C06", c06::run),
     ("C08", c08::run),
     ("C09", c09::run),
+    ("C10", c10::run),
+    ("C11", c11::run),
     ("C12", c12::run),
+    ("C14", c14::run),
     ("C15", c15::run),
     ("C16", c16::run),
     ("C18", c18::run),
